@@ -602,9 +602,8 @@ class EdgeQLSourceGenerator(codegen.SourceGenerator):
 
     def visit_Shape(self, node: qlast.Shape) -> None:
         if node.expr is not None:
-            if isinstance(node.expr, (qlast.TypeCast, qlast.Constant)):
-                # `(<T>x) { y }` is not `<T>x { y }` (nor `(-1) { y }`
-                # `-1 { y }`)
+            if isinstance(node.expr, qlast.TypeCast):
+                # `(<T>x) { y }` is not `<T>x { y }`
                 self.write('(')
                 self.visit(node.expr)
                 self.write(')')
@@ -744,6 +743,11 @@ class EdgeQLSourceGenerator(codegen.SourceGenerator):
                 _non_printable_escape,
                 edgeql_quote.quote_literal(node.value),
             ))
+        elif node.value.startswith('-'):
+            # The parser folds `-1` into a negative constant; printed
+            # bare as an operand it would re-parse as a negation of the
+            # whole operation: `(-1) ^ 2` is not `-1 ^ 2`.
+            self.write('(', node.value, ')')
         else:
             self.write(node.value)
 
